@@ -19,7 +19,9 @@ def _typed(job, W):
     """the matrix as the caller might hold it (integer types, Fortran order); values unchanged"""
     dt = job.get("dtype")
     if dt:
-        W = W.astype({"int": int}.get(dt, dt))
+        Wt = W.astype({"int": int}.get(dt, dt))
+        if np.array_equal(Wt.astype(float), W):        # lossless casts only (bool: 0/1 networks, uint8: no negative weight)
+            W = Wt
     if job.get("layout") == "F":
         W = np.asfortranarray(W)
     return W
@@ -153,11 +155,19 @@ def exec_given(bct, job):
                gd=job["gd"], qtype=job.get("qtype", ""), objective="", start=[int(x) for x in job["start"]],
                raised="", malformed="", events=[], ci_out=[], q_out=0, hier_ci=[], hier_q=[], fed_ci=[],
                level_q_comparable=1, expect_ci=[], expect_qnum=0, expect_qden=0, script_status="none", noisy=0)
+    # the partition as the caller holds it (seed round 7): 1-D array, python list / tuple, float labels,
+    # a 1 x n row vector (scipy.io.loadmat of a MATLAB vector) - the forms for which the unchanged
+    # routines return the value of the 1-D call (sampled 300 calls; not the n x 1 column, not the row for
+    # modularity_und_sign: both raise)
+    form = job.get("start_form", "array")
+    part = {"array": np.array, "list": lambda c: [int(x) for x in c], "tuple": lambda c: tuple(int(x) for x in c),
+            "float": lambda c: np.array(c, dtype=float),
+            "row": lambda c: np.array(c).reshape(1, -1)}[form](job["start"])
     try:
         if fn == "modularity_und_sign":
-            ci, q = bct.modularity_und_sign(W, np.array(job["start"]), qtype=job["qtype"])
+            ci, q = bct.modularity_und_sign(W, part, qtype=job["qtype"])
         else:
-            ci, q = getattr(bct, fn)(W, gamma=job["gn"] / job["gd"], kci=np.array(job["start"]))
+            ci, q = getattr(bct, fn)(W, gamma=job["gn"] / job["gd"], kci=part)
     except Exception as e:
         rec["raised"] = encode.exc_name(e)
         return rec
